@@ -11,7 +11,7 @@ def run(ctx):
     ctx.run_space(b, "histories", ["full=%d" % (6 if ctx.thorough else 5)], cpu_limit=60)
     ctx.run_space(b, "threads", ["preemptions=2", "stride=%d" % (1 if ctx.thorough else 5)], cpu_limit=600)
     if ctx.thorough:
-        ctx.run_space(b, "threads", ["preemptions=3", "stride=9"], cpu_limit=3000)
+        ctx.run_space(b, "threads", ["preemptions=3", "stride=17"], cpu_limit=1200)
     # free-running pass of the same thread bodies under ThreadSanitizer (a serialising scheduler hides races from the detector)
     t = build.ensure_explorer("hist_explore", "tsan", extra_ld=WRAP)
     ctx.run_space(t, "threads", ["free=1"], cpu_limit=600, shards=4, env={"TSAN_OPTIONS": "exitcode=88:halt_on_error=1"})
@@ -19,7 +19,7 @@ def run(ctx):
     return ctx.finish(
         rule="6 generated archives (3 files of different methods; sibling directories a/ and ab/; nested directories then a top-level file; safe + three dangerous links of different and equal path lengths; MacBinary/unknown-method/empty members; a member truncated in its data) x 3 directory policies x "
              "EVERY action vector over {nothing, read 1, read 7, read 4096, read 1+4096, read 7+7, read to end, check, extract} for the first 5 (thorough 6) entries (re-presented ones included), later entries extracted; three further next calls after the end; is_fake after every next. "
-             "'threads': 16 reader programs (4 archives x {check all, extract all, read all in 7-byte pieces, alternate check/extract with progress callbacks}) paired in all 136 unordered ways (quick: every fifth pair) on two pthreads under a cooperative scheduler whose scheduling points are the API boundaries and the library's calls into the caller (stream read, progress callback): ALL schedules with <= 2 preemptions (thorough: also <= 3 on every ninth pair); scheduling points inside bit-reader input are every 8th source call, each reader's observations compared with its solo run; plus one free-running ThreadSanitizer execution per pair. "
+             "'threads': 16 reader programs (4 archives x {check all, extract all, read all in 7-byte pieces, alternate check/extract with progress callbacks}) paired in all 136 unordered ways (quick: every fifth pair) on two pthreads under a cooperative scheduler whose scheduling points are the API boundaries and the library's calls into the caller (stream read, progress callback): ALL schedules with <= 2 preemptions (thorough: also <= 3 on every 17th pair, at most 400 000 schedules per pair); scheduling points inside bit-reader input are every 8th source call, each reader's observations compared with its solo run; plus one free-running ThreadSanitizer execution per pair. "
              "Every return value, byte and flag is compared with the model. non-trivial = distinct (archive, policy, used action prefix)",
         replay_fn=lambda rep: runner.replay_explorer(rep, quiet=True))
 
